@@ -3,12 +3,14 @@ import Acra.Drv.SpecFTI2
 import Acra.Drv.SpecSearch
 import Acra.Drv.SpecMpeg
 import Acra.Drv.SpecCh10
+import Acra.Drv.SpecNet
 namespace Acra.Drv
 def specFuncs : List Func := List.flatten [
   specFuncsFTI,
   specFuncsFTI2,
   specFuncsSearch,
   specFuncsMpeg,
-  specFuncsCh10
+  specFuncsCh10,
+  specFuncsNet
 ]
 end Acra.Drv
